@@ -60,3 +60,7 @@ mod examples;
 // MAX+1 elements, traphook)
 #[cfg(all(kani, feature = "traphook"))]
 mod limits;
+// C20 bucket crossing of the token binder / document manager: only with RUSTFLAGS="--cfg stellar_verif" (BUCKET_SIZE = 2),
+// profiles bk_binder / bk_docs of checks/reg_buckets.py
+#[cfg(all(kani, feature = "bucketedge"))]
+mod registries_edge;
